@@ -124,10 +124,18 @@ def monitor(ops, lines):
                 if owner_before == "B":
                     if int(n) > 0:
                         out.append((i, "write-to-foreign-partition", "partition %s is leased to B but %s segment upload(s) happened" % (r, n)))
-                    # a failing lease transaction cannot learn the owner: retriable REQUEST_TIMED_OUT is the documented answer
-                    want = "29" if (deny1 and int(r) in T1) else ("7" if (not etcd_up or txnfail) else "6")
-                    if code is not None and code != want:
-                        out.append((i, "foreign-partition-not-rejected", "partition %s is leased to B: expected code %s (NOT_LEADER_OR_FOLLOWER unless ACL/etcd rejected earlier), got %s" % (r, want, code)))
+                    # a failing lease transaction cannot learn the owner: retriable REQUEST_TIMED_OUT is then as good as
+                    # NOT_LEADER_OR_FOLLOWER (the exact code is pinned by the model diff, not by the property)
+                    if deny1 and int(r) in T1:
+                        want = ("29",)
+                    elif not etcd_up:
+                        want = ("7",)
+                    elif txnfail:
+                        want = ("6", "7")
+                    else:
+                        want = ("6",)
+                    if code is not None and code not in want:
+                        out.append((i, "foreign-partition-not-rejected", "partition %s is leased to B: expected code %s (NOT_LEADER_OR_FOLLOWER unless ACL/etcd/lease-error rejected earlier), got %s" % (r, "/".join(want), code)))
                 if code == "0" and (r not in o["own"] or owner_now != "A"):
                     out.append((i, "success-without-lease", "partition %s acknowledged with code 0 but A owns %s and etcd owner is %s" % (
                         r, ",".join(o["own"]) or "nothing", owner_now)))
